@@ -128,6 +128,20 @@ pub fn run(op: &str, args: &[&str]) -> Option<String> {
                 Err(s) => s,
             }
         }
+        /* PkgDB::open on something that is not a directory: "file" | "missing" */
+        ("db.other", [k]) => {
+            let p = std::env::temp_dir().join(format!("pkgsrc_harness_dbfile_{}", std::process::id()));
+            let _ = std::fs::remove_file(&p);
+            if *k == "file" {
+                std::fs::write(&p, b"not a directory").unwrap();
+            }
+            let r = match PkgDB::open(&p) {
+                Ok(db) => format!("OK:{}", db.map(|_| "ITEM").collect::<Vec<_>>().join("#")),
+                Err(_) => "E:open".to_string(),
+            };
+            let _ = std::fs::remove_file(&p);
+            r
+        }
         _ => return None,
     })
 }
